@@ -133,6 +133,97 @@ static inline size_t ref_ipv4_serialize(uint32_t a, char *out) {
   return k;
 }
 
+/* ---- IPv6 serializer (URL Standard 3.6 "IPv6 serializer"): find the first longest run of >= 2 zero pieces ("compress"),
+ * lower-case hex without leading zeros, "::" for the compressed run.  Output without brackets; returns length (<= 39). */
+static inline size_t ref_ipv6_serialize(const uint16_t *a, char *out) {
+  int compress = -1, best = 1;       /* "sequences of length 1 are ignored": only runs longer than 1 */
+  for (int i = 0; i < 8; ) {
+    if (a[i] != 0) { i++; continue; }
+    int j = i; while (j < 8 && a[j] == 0) j++;
+    if (j - i > best) { best = j - i; compress = i; }
+    i = j;
+  }
+  size_t k = 0; _Bool ignore0 = 0;
+  for (int i = 0; i < 8; i++) {
+    if (ignore0 && a[i] == 0) continue; else if (ignore0) ignore0 = 0;
+    if (compress == i) {
+      out[k++] = ':'; if (i == 0) out[k++] = ':';
+      ignore0 = 1; continue;
+    }
+    unsigned v = a[i]; _Bool started = 0;
+    for (int sh = 12; sh >= 0; sh -= 4) {
+      unsigned d = (v >> sh) & 15;
+      if (d != 0 || started || sh == 0) { out[k++] = SPEC_HEXL(d); started = 1; }
+    }
+    if (i != 7) out[k++] = ':';
+  }
+  return k;
+}
+
+/* ---- IPv6 parser (URL Standard 3.5 "IPv6 parser"), input without brackets; 1 = ok and address filled */
+static inline _Bool ref_ipv6_parse(sv_t in, uint16_t *address) {
+  for (int i = 0; i < 8; i++) address[i] = 0;
+  int pieceIndex = 0, compress = -1;
+  size_t p = 0, n = in.n;
+#define C_ (p < n ? (int)(unsigned char)in.p[p] : -1)
+  if (C_ == ':') {
+    if (!(p + 1 < n && in.p[p + 1] == ':')) return 0;
+    p += 2; pieceIndex++; compress = pieceIndex;
+  }
+  while (C_ != -1) {
+    if (pieceIndex == 8) return 0;
+    if (C_ == ':') {
+      if (compress != -1) return 0;
+      p++; pieceIndex++; compress = pieceIndex; continue;
+    }
+    unsigned value = 0; int length = 0;
+    while (length < 4 && C_ != -1 && SPEC_ASCII_HEX(C_)) { value = value * 16 + SPEC_HEXVAL(C_); p++; length++; }
+    if (C_ == '.') {
+      if (length == 0) return 0;
+      p -= (size_t)length;
+      if (pieceIndex > 6) return 0;
+      int numbersSeen = 0;
+      while (C_ != -1) {
+        int ipv4Piece = -1;
+        if (numbersSeen > 0) {
+          if (C_ == '.' && numbersSeen < 4) p++; else return 0;
+        }
+        if (!(C_ != -1 && SPEC_ASCII_DIGIT(C_))) return 0;
+        while (C_ != -1 && SPEC_ASCII_DIGIT(C_)) {
+          int number = C_ - '0';
+          if (ipv4Piece == -1) ipv4Piece = number;
+          else if (ipv4Piece == 0) return 0;
+          else ipv4Piece = ipv4Piece * 10 + number;
+          if (ipv4Piece > 255) return 0;
+          p++;
+        }
+        address[pieceIndex] = (uint16_t)(address[pieceIndex] * 0x100 + ipv4Piece);
+        numbersSeen++;
+        if (numbersSeen == 2 || numbersSeen == 4) pieceIndex++;
+      }
+      if (numbersSeen != 4) return 0;
+      break;
+    } else if (C_ == ':') {
+      p++;
+      if (C_ == -1) return 0;
+    } else if (C_ != -1) return 0;
+    address[pieceIndex] = (uint16_t)value;
+    pieceIndex++;
+  }
+  if (compress != -1) {
+    int swaps = pieceIndex - compress;
+    pieceIndex = 7;
+    while (pieceIndex != 0 && swaps > 0) {
+      uint16_t t = address[compress + swaps - 1];
+      address[compress + swaps - 1] = address[pieceIndex];
+      address[pieceIndex] = t;
+      pieceIndex--; swaps--;
+    }
+  } else if (pieceIndex != 8) return 0;
+#undef C_
+  return 1;
+}
+
 /* ---- leading/trailing "C0 control or space" trimming */
 static inline sv_t ref_trim_c0(sv_t v) {
   while (v.n > 0 && (unsigned char)v.p[0] <= 0x20) { v.p++; v.n--; }
